@@ -100,7 +100,7 @@ func (s *scanner) peek() (*pb.Result, error) {
 		// a regionserver whose lease has to be kept alive
 		renewCtx, cancel := context.WithCancel(s.rpc.Context())
 		s.renewCancel = cancel
-		go s.renewLoop(renewCtx, s.startRow)
+		go s.renewLoop(renewCtx, s.startRow, s.curRegionScannerID)
 	}
 
 	// fetch cannot return zero results
@@ -389,7 +389,7 @@ func (s *scanner) closeRegionScanner() {
 }
 
 // renews a scanner by resending scan request with renew = true
-func (s *scanner) renew(ctx context.Context, startRow []byte) error {
+func (s *scanner) renew(ctx context.Context, startRow []byte, scannerID uint64) error {
 	if err := ctx.Err(); err != nil {
 		return err
 	}
@@ -397,7 +397,7 @@ func (s *scanner) renew(ctx context.Context, startRow []byte) error {
 		s.rpc.Table(),
 		startRow,
 		nil,
-		hrpc.ScannerID(s.curRegionScannerID),
+		hrpc.ScannerID(scannerID),
 		hrpc.Priority(s.rpc.Priority()),
 		hrpc.RenewalScan(),
 	)
@@ -408,7 +408,10 @@ func (s *scanner) renew(ctx context.Context, startRow []byte) error {
 	return err
 }
 
-func (s *scanner) renewLoop(ctx context.Context, startRow []byte) {
+// renewLoop renews the lease of the region scanner that is open when it
+// is started; the id is passed in because the scanner's own field is
+// written by the goroutine calling Next.
+func (s *scanner) renewLoop(ctx context.Context, startRow []byte, scannerID uint64) {
 	scanRenewers.Inc()
 	t := time.NewTicker(s.rpc.RenewInterval())
 	defer func() {
@@ -419,7 +422,7 @@ func (s *scanner) renewLoop(ctx context.Context, startRow []byte) {
 	for {
 		select {
 		case <-t.C:
-			if err := s.renew(ctx, startRow); err != nil {
+			if err := s.renew(ctx, startRow, scannerID); err != nil {
 				s.logger.Error("error renewing scanner", "err", err)
 				return
 			}
